@@ -133,12 +133,14 @@ def dispatch_models():
 
 
 def run_dispatch(P, funcname="diff", pos=None, to=None, axnames=("AX",), axis_arg=None, dims=None, data_as_vector=False,
-                 default_shifts=None, positions=None, kwargs=None, metric_weighted=None, other_component=None):
+                 default_shifts=None, positions=None, kwargs=None, metric_weighted=None, other_component=None, attr_models=None):
     """Evaluate Grid._1d_grid_ufunc_dispatch as a whole.  pos: {axis: position of the data}."""
     from .geometry import POSITIONS
 
     pos = pos or {a: "center" for a in axnames}
-    ev = Evaluator(P, models=dispatch_models(), attr_models=da_attr_models(), method_models=da_method_models())
+    am = da_attr_models()
+    am.update(attr_models or {})
+    ev = Evaluator(P, models=dispatch_models(), attr_models=am, method_models=da_method_models())
     fi = P.func("grid:Grid._1d_grid_ufunc_dispatch")
 
     def make():
